@@ -4009,7 +4009,13 @@ impl<'a> ZonedDifference<'a> {
         })?;
         if t::sign(zdt2, &zmid) == -sign {
             if sign == C(-1) {
-                panic!("this should be an error");
+                return Err(err!(
+                    "failed to find an intermediate datetime between \
+                     {zdt1} and {zdt2} in time zone {tz} \
+                     (a time zone transition shifts the clock by more \
+                     than a day)",
+                    tz = tz.diagnostic_name(),
+                ));
             }
             day_correct += C(1);
             mid = dt2
@@ -4030,7 +4036,13 @@ impl<'a> ZonedDifference<'a> {
                 )
             })?;
             if t::sign(zdt2, &zmid) == -sign {
-                panic!("this should be an error too");
+                return Err(err!(
+                    "failed to find an intermediate datetime between \
+                     {zdt1} and {zdt2} in time zone {tz} \
+                     (a time zone transition shifts the clock by more \
+                     than a day)",
+                    tz = tz.diagnostic_name(),
+                ));
             }
         }
         let remainder_nano = zdt2.timestamp().as_nanosecond_ranged()
